@@ -171,6 +171,11 @@ func (c *PullClient) Open() (err error) {
 		return err
 	}
 
+	// 握手阶段设置读写期限：对端不应答时不能永久阻塞请求者（并泄漏连接和协程）
+	if timeout := config.NetTimeout(); timeout > 0 {
+		c.conn.SetDeadline(time.Now().Add(timeout))
+	}
+
 	// 请求握手
 	err = c.requestHandshake()
 	if err != nil {
@@ -285,6 +290,7 @@ func (c *PullClient) requestPlay() (err error) {
 		return err
 	}
 	_ = resp
+	c.conn.SetDeadline(time.Time{}) // 握手结束；播放循环按需设置读期限
 	mproxy := &multicastProxy{
 		path:        c.path,
 		bufferSize:  config.NetBufferSize(),
